@@ -7,6 +7,8 @@ from .. import paths
 from ..core import FUNC, call_attr, calls_in, const, dotted, is_const, kwarg, norm, text, walk_local
 
 EXPLANATION = [
+    "C15.device-namespace: JsonKeyStore.from_device uses the device's random address as namespace whenever it differs from the ANY_RANDOM placeholder (no further condition on its sub-type).",
+    'C15.key-lookup: PairingKeys.key_from_dict looks its dictionary up only under the member name it was given (an absent member is not filled from another one).',
     'C15.filename-resolved: JsonKeyStore canonicalises a configured file name with symbolic links followed (resolve / realpath), which the atomic os.replace in save() relies on.',
     "C15.namespace-resolution: no accessor of JsonKeyStore other than load() indexes the database by self.namespace: all of them work on the key map load() resolved (which may be the file's only namespace adopted by the default store), so get / get_all / update / delete agree.",
     'C15.one-shot: no name bound to a generator expression or to filter() / map() / zip() / reversed() / enumerate() is read in more than one consuming position or inside a loop that evaluates it repeatedly: such an iterator is empty after its first walk.',
@@ -321,7 +323,48 @@ def filename_resolved(ctx):
     R.check(sv is not None and any(dotted(c.func) == 'os.replace' for c in calls_in(sv)), rule, f'{K}.JsonKeyStore.save | atomic replace', 'save() replaces the file with os.replace', 'save() no longer uses os.replace (anchor of this rule)', p.loc(sv) if sv is not None else '')
 
 
+def key_lookup(ctx):
+    """PairingKeys.key_from_dict reads the member it was asked for and nothing else: an absent member is None, it is not
+    filled from another member (`ltk_central` from `ltk`)."""
+    R, p = ctx.r, ctx.p
+    rule = 'C15.key-lookup'
+    fn = p.find(f'{K}.PairingKeys.key_from_dict')
+    if fn is None:
+        R.bad(rule, f'{K}.PairingKeys.key_from_dict', 'anchor missing')
+        return
+    params = [a.arg for a in fn.args.args if a.arg not in ('cls', 'self')]
+    if len(params) < 2:
+        R.bad(rule, f'{K}.PairingKeys.key_from_dict', 'signature changed (anchor)', p.loc(fn))
+        return
+    table, key = params[0], params[1]
+    looks = [c.args[0] for c in calls_in(fn) if call_attr(c) in ('get', 'pop') and dotted(c.func.value) == table and c.args]
+    looks += [s_.slice for s_ in walk_local(fn) if isinstance(s_, ast.Subscript) and dotted(s_.value) == table]
+    bad = [x for x in looks if not (isinstance(x, ast.Name) and x.id == key)]
+    R.check(bool(looks) and not bad, rule, f'{K}.PairingKeys.key_from_dict', f'{len(looks)} lookup(s), all by `{key}`', f'the stored entry is also looked up under `{norm(bad[0]) if bad else ""}`: a member that was never stored is read from another member, so what the store returns is not what was put in (a Secure Connections bond comes back with legacy role-specific LTKs)', p.loc(bad[0]) if bad else p.loc(fn))
+
+
+def device_namespace(ctx):
+    """JsonKeyStore.from_device falls back to the shared default namespace only for a device without any address: the
+    random address is used whenever it is not the ANY_RANDOM placeholder, whatever its sub-type (a non-static random
+    address is still that device's own name space; the default namespace aliases whatever single namespace a shared file
+    has)."""
+    R, p = ctx.r, ctx.p
+    rule = 'C15.device-namespace'
+    fn = p.find(f'{K}.JsonKeyStore.from_device')
+    if fn is None:
+        R.bad(rule, f'{K}.JsonKeyStore.from_device', 'anchor missing')
+        return
+    sts = [s_ for s_ in walk_local(fn) if isinstance(s_, ast.Assign) and dotted(s_.targets[0]) == 'namespace' and 'random_address' in norm(s_.value)]
+    R.check(len(sts) == 1, rule, f'{K}.JsonKeyStore.from_device | random-address namespace', 'one assignment', f'{len(sts)} assignments', p.loc(fn))
+    for s_ in sts:
+        g = [(t, pol) for t, pol in paths.flat_guards(s_, stop=fn) if 'random_address' in norm(t)]
+        ok = len(g) == 1 and isinstance(g[0][0], ast.Compare) and len(g[0][0].ops) == 1 and 'ANY_RANDOM' in norm(g[0][0]) and ((isinstance(g[0][0].ops[0], ast.NotEq) and g[0][1]) or (isinstance(g[0][0].ops[0], ast.Eq) and not g[0][1]))
+        R.check(ok, rule, f'{K}.JsonKeyStore.from_device | condition', 'used whenever it differs from ANY_RANDOM', f'the random address names the namespace only if `{[norm(t) for t, _ in g]}`: a device whose random address does not satisfy it shares the default namespace, which load() aliases to the single namespace of a shared file - its updates and deletions land in another device\'s entries', p.loc(s_))
+
+
 RULES = [
+    ('C15.device-namespace', device_namespace),
+    ('C15.key-lookup', key_lookup),
     ('C15.filename-resolved', filename_resolved),
     ('C15.namespace-resolution', namespace_resolution),
     ('C15.one-shot', one_shot_rule),
